@@ -241,7 +241,7 @@ Definition grammar_size (gr : grammar) : nat :=
   fold_right (fun r a => match r with GRule r => expr_size (r_def r) | _ => 1 end + a) 0 gr.
 
 (* enough for every get_fields call on a grammar with acyclic includes *)
-Definition gf_fuel : nat := S (grammar_size g) * S (length g).
+Definition gf_fuel : nat := S (grammar_size g).
 
 Record ectx := { c_skip : bool; c_fields : list fdesc }.
 
